@@ -212,11 +212,10 @@ impl<'a> Reader<'a> {
         // changed since this log, in which case we just ignore it.
         //
         // It's possible we log a build that generates files A B, then
-        // change the build file such that it only generates file A; this
-        // logic will still attach the old dependencies to A, but it
-        // shouldn't matter because the changed command line will cause us
-        // to rebuild A regardless, and these dependencies are only used
-        // to affect dirty checking, not build order.
+        // change the build file such that it only generates file A; the
+        // record is then obsolete too, so that an older record for A alone
+        // (if any) stays in effect instead of being replaced by one whose
+        // hash can never match.
 
         let mut unique_bid = None;
         let mut obsolete = false;
@@ -229,6 +228,7 @@ impl<'a> Reader<'a> {
             }
             match self.graph.file(self.ids.fileids[fileid]).input {
                 None => {
+                    unique_bid = None;
                     obsolete = true;
                 }
                 Some(bid) => {
